@@ -264,14 +264,13 @@ def try_remove(parent, name):
     return False
 
 
-@st.composite
-def abstract_spec(draw):
-    total = draw(st.sampled_from([1, 5, 19, 20, 21, 40]))
-    form = draw(st.sampled_from([0, 1, 2, 3, 4, 5, 6, 7, 7, 7, 8, 8]))
+def _abstract(pre):
+    total = pre.pick([1, 5, 19, 20, 21, 40])
+    form = pre.pick([0, 1, 2, 3, 4, 5, 6, 7, 7, 7, 8, 8])
     if form == 0:
-        return {"n": "abstract", "c": words(total, draw(st.sampled_from([" ", "\n", "  "])))}
+        return {"n": "abstract", "c": words(total, pre.pick([" ", "\n", "  "]))}
     if form == 1:
-        a = draw(st.integers(0, total))
+        a = pre.int(0, total)
         ks = [{"n": "para", "c": words(a)}] if a else [{"n": "para"}]
         if total - a:
             ks.append({"n": "para", "c": words(total - a)})
@@ -284,15 +283,15 @@ def abstract_spec(draw):
         # a para that carries only inline children has no text of its own
         return {"n": "abstract", "k": [{"n": "para", "k": [{"n": "emphasis", "c": words(total)}]}]}
     if form == 5:
-        a = draw(st.integers(1, total)) if total > 1 else 1
+        a = pre.int(1, total) if total > 1 else 1
         ks = [{"n": "para", "c": words(total - a)}] if total - a else [{"n": "para", "k": [{"n": "subscript", "c": "2"}]}]
         return {"n": "abstract", "c": words(a), "k": ks}
     if form == 6:
         return {"n": "abstract", "k": [{"n": "para"}, {"n": "markdown", "c": words(total)}]}
-    a = draw(st.integers(0, total))
+    a = pre.int(0, total)
     # text nested below a para through a list, and below nested sections: still part of the abstract
     inner = {"n": "para", "c": words(total - a)} if total - a else {"n": "para"}
-    lst = draw(st.sampled_from(["itemizedlist", "orderedlist"]))
+    lst = pre.pick(["itemizedlist", "orderedlist"])
     outer = {"n": "para", "k": [{"n": lst, "k": [{"n": "listitem", "k": [inner]}]}]}
     if a:
         outer["c"] = words(a)
@@ -302,9 +301,17 @@ def abstract_spec(draw):
 
 
 @st.composite
+def abstract_spec(draw):
+    from vf.pre import Pre
+    return _abstract(Pre(draw, 8))
+
+
+@st.composite
 def constructed(draw):
-    root = draw(st.sampled_from(["eml", "dataset", "dataset", "dataset", "dataTable", "otherEntity", "creator", "project",
-                                 "methods", "contact", "dataset"]))
+    from vf.pre import Pre
+    pre = Pre(draw, 96)     # control choices first (vf/pre.py): which recommendations the tree meets and which it misses
+    root = pre.pick(["eml", "dataset", "dataset", "dataset", "dataTable", "otherEntity", "creator", "project",
+                                 "methods", "contact", "dataset"])
     sp = draw(treegen.valid_spec(element=root, max_nodes=50, avoid=(REF,)))
     from props.c16 import strip
     strip(sp)
@@ -314,10 +321,10 @@ def constructed(draw):
         if nm == "dataset":
             for name in ("abstract", "coverage", "dataTable", "intellectualRights", "methods", "project", "keywordSet"):
                 present = any(k["n"] == name for k in s.get("k", []))
-                want = draw(st.booleans())
+                want = pre.bool()
                 if want and not present:
                     if name == "abstract":
-                        child = draw(abstract_spec())
+                        child = _abstract(pre)
                     else:
                         child = draw(treegen.valid_spec(element=name, max_nodes=10, max_depth=4, avoid=(REF,)))
                         strip(child)
@@ -326,19 +333,19 @@ def constructed(draw):
                     try_remove(s, name)
             for k in s.get("k", []):
                 if k["n"] == "title":
-                    k["c"] = words(draw(st.sampled_from([3, 4, 5, 6])), draw(st.sampled_from(
-                        [" ", "  ", "\xa0", " \xa0", " \n ", " \t ", "  \n   ", " \r\n ", "\n", " \x0b "])))
-                elif k["n"] == "abstract" and draw(st.integers(0, 2)) > 0:
+                    k["c"] = words(pre.pick([3, 4, 5, 6]), pre.pick(
+                        [" ", "  ", "\xa0", " \xa0", " \n ", " \t ", "  \n   ", " \r\n ", "\n", " \x0b "]))
+                elif k["n"] == "abstract" and pre.int(0, 2) > 0:
                     k.clear()
-                    k.update(draw(abstract_spec()))
+                    k.update(_abstract(pre))
             ksets = [k for k in s.get("k", []) if k["n"] == "keywordSet"]
-            if ksets and draw(st.integers(0, 2)) == 0:
+            if ksets and pre.int(0, 2) == 0:
                 # several keyword sets: the recommendation counts keywords in total
                 i = s["k"].index(ksets[0])
                 s["k"].insert(i, treegen._copy(ksets[0]))
                 ksets = [k for k in s.get("k", []) if k["n"] == "keywordSet"]
             if ksets:
-                target = draw(st.sampled_from([len(ksets), 4, 5, 6, 7]))
+                target = pre.pick([len(ksets), 4, 5, 6, 7])
                 total = sum(1 for ks in ksets for k in ks.get("k", []) if k["n"] == "keyword")
                 first = ksets[0]
                 while total < target:
@@ -352,7 +359,7 @@ def constructed(draw):
         elif nm in PARTIES:
             for name in ("userId", "electronicMailAddress"):
                 present = any(k["n"] == name for k in s.get("k", []))
-                want = draw(st.booleans())
+                want = pre.bool()
                 if want and not present:
                     child = {"n": name, "c": "0000-0001-2345-6789" if name == "userId" else "a@b.org"}
                     if name == "userId":
@@ -361,42 +368,42 @@ def constructed(draw):
                 elif not want and present:
                     try_remove(s, name)
             uids = [k for k in s.get("k", []) if k["n"] == "userId"]
-            if uids and draw(st.booleans()):
+            if uids and pre.bool():
                 # several user ids: any one of them may be the ORCID, in any position
-                for _ in range(draw(st.integers(1, 2))):
+                for _ in range(pre.int(1, 2)):
                     i = s["k"].index(uids[0])
-                    s["k"].insert(i + draw(st.integers(0, 1)), {"n": "userId", "c": "id-%d" % _, "a": {"directory": "x"}})
+                    s["k"].insert(i + pre.int(0, 1), {"n": "userId", "c": "id-%d" % _, "a": {"directory": "x"}})
             for k in s.get("k", []):
                 if k["n"] == "userId":
-                    k.setdefault("a", {})["directory"] = draw(st.sampled_from(
-                        ["https://orcid.org", "https://orcid.org", "ldap://x", "https://orcid.org/", "ORCID", "http://orcid.org"]))
+                    k.setdefault("a", {})["directory"] = pre.pick(
+                        ["https://orcid.org", "https://orcid.org", "ldap://x", "https://orcid.org/", "ORCID", "http://orcid.org"])
         elif nm == "individualName":
             present = any(k["n"] == "givenName" for k in s.get("k", []))
-            want = draw(st.booleans())
+            want = pre.bool()
             if want and not present:
                 try_insert(s, {"n": "givenName", "c": "G"})
             elif not want and present:
                 try_remove(s, "givenName")
         elif nm in ("dataTable", "otherEntity"):
             present = any(k["n"] == "entityDescription" for k in s.get("k", []))
-            want = draw(st.booleans())
+            want = pre.bool()
             if want and not present:
                 try_insert(s, {"n": "entityDescription", "c": "described"})
             elif not want and present:
                 try_remove(s, "entityDescription")
             if nm == "dataTable":
-                if not any(k["n"] == "numberOfRecords" for k in s.get("k", [])) and draw(st.booleans()):
+                if not any(k["n"] == "numberOfRecords" for k in s.get("k", [])) and pre.bool():
                     try_insert(s, {"n": "numberOfRecords", "c": "10"})
         elif nm == "physical":
             for name, content in (("size", "100"), ("authentication", "abcdef")):
                 present = any(k["n"] == name for k in s.get("k", []))
-                want = draw(st.booleans())
+                want = pre.bool()
                 if want and not present:
                     try_insert(s, {"n": name, "c": content})
-                elif not want and present and draw(st.booleans()):
+                elif not want and present and pre.bool():
                     try_remove(s, name)
-        elif nm == "para" and draw(st.integers(0, 3)) == 0 and "k" not in s:
-            k = draw(st.sampled_from([0, 5, 19, 20, 21]))
+        elif nm == "para" and pre.int(0, 3) == 0 and "k" not in s:
+            k = pre.pick([0, 5, 19, 20, 21])
             if k:
                 s["c"] = words(k)
     return sp
@@ -429,18 +436,20 @@ def deep_path(draw):
     """a chain of elements that follows the rules' allowed-child edges from a container far above (eml, dataTable,
     attributeList, methods, coverage ...) down to an element evaluation looks at, which is then given a constructed
     subtree: the recommendations apply at any depth and below any container"""
+    from vf.pre import Pre
+    pre = Pre(draw, 48)     # control choices first (vf/pre.py)
     g, can, targets = _reach_tables()
-    cur = draw(st.sampled_from(["eml", "dataset", "dataTable", "attributeList", "attribute", "methods", "methodStep",
-                                "dataSource", "project", "otherEntity", "coverage", "spatialRaster", "additionalMetadata"]))
+    cur = pre.pick(["eml", "dataset", "dataTable", "attributeList", "attribute", "methods", "methodStep",
+                                "dataSource", "project", "otherEntity", "coverage", "spatialRaster", "additionalMetadata"])
     if cur not in can:
         cur = "dataset"
     top = node = {"n": cur}
-    for _ in range(draw(st.integers(2, 12))):
+    for _ in range(pre.int(2, 12)):
         nxt = [k for k in g.get(cur, []) if k in can and k != REF]
         if not nxt:
             break
-        cur = nxt[draw(st.integers(0, len(nxt) - 1))]
-        if cur in targets and draw(st.integers(0, 2)) == 0:
+        cur = pre.pick(nxt)
+        if cur in targets and pre.chance(3):
             break
         child = {"n": cur}
         node["k"] = [child]
@@ -450,13 +459,13 @@ def deep_path(draw):
         from props.c16 import strip
         strip(leaf)
         if cur in PARTIES:
-            leaf["k"] = [k for k in leaf.get("k", []) if k["n"] not in ("userId", "electronicMailAddress")] if draw(st.booleans()) else leaf.get("k", [])
+            leaf["k"] = [k for k in leaf.get("k", []) if k["n"] not in ("userId", "electronicMailAddress")] if pre.bool() else leaf.get("k", [])
         for _, x in treegen.spec_nodes(leaf):
-            if x["n"] == "individualName" and draw(st.booleans()):
+            if x["n"] == "individualName" and pre.bool():
                 x["k"] = [k for k in x.get("k", []) if k["n"] != "givenName"]
-            if x["n"] == "description" and draw(st.integers(0, 3)) == 0:
+            if x["n"] == "description" and pre.chance(4):
                 x.pop("k", None)
-                x["c"] = draw(st.sampled_from([None, "", " "]))
+                x["c"] = pre.pick([None, "", " "])
         node.setdefault("k", []).append(leaf)
     return top
 
